@@ -161,6 +161,23 @@ def oracle_criterion(case, rec):
         rec.check(not A[miss, :].any() and not A[:, miss].any(),
                   "missing_isolated_" + ("horizontal" if hor else "natural"),
                   "missing=%s row sums=%s" % (miss, A[miss].sum(axis=1)))
+    # both relations can be asked of any object, in any order, and neither
+    # call disturbs the other (nor the series the object holds)
+    if n <= 60 or not hor:
+        fast = n > 60
+        other = (ref_visibility_int(xs, ft, not hor) if fast
+                 else ref_visibility(fx, ft, not hor))
+        order = ("visibility_relations_horizontal", "visibility_relations")
+        if (n + len(case["x"])) % 2:
+            order = order[::-1]
+        for name in order + order[:1]:
+            okr, Rl = rec.call(name, getattr(vg, name))
+            if okr:
+                want = ref if (name.endswith("horizontal") == hor) else other
+                rec.equal(np.asarray(Rl).astype(int), want.astype(int),
+                          name + "_on_%s_object" % ("horizontal" if hor
+                                                    else "natural") +
+                          ("_missing" if has_mv else ""))
     # visibility() accessors agree with adjacency
     if n >= 2:
         rec.check(int(vg.visibility(0, 1)) == int(A[0, 1]), "visibility()")
